@@ -30,11 +30,20 @@ RULE = ("case 'bad' = (well-formed DBC or SYM text: canmatrix's own output for a
         "Large multisets (one text in three): 7..105 malformed lines, one to three distinct ones (of one fault kind, of any, or cut from the "
         "file's own statements) repeated - all in one run at one position, in two or three runs, or one in front of each of that many "
         "statements; judged like every other 'bad' case (DBC and SYM). "
+        "Wrong field types are also derived from the file itself (half of the 'bad' cases): the copy of a complete statement of the text in "
+        "which one number outside quoted texts was replaced by a word, inserted behind the original, so that the malformed line names an "
+        "object a well-formed statement has defined - DBC: BO_, SG_, BO_TX_BU_, CM_, VAL_ (identifier or a key), VAL_TABLE_ (a key), "
+        "SIG_VALTYPE_, SIG_GROUP_, SG_MUL_VAL_, BA_DEF_ (every kind equally often; six in ten generated DBC texts have one to three global "
+        "value tables); SYM: an enum statement with a key replaced (behind the original, inside the {ENUMS} section), a Var=/Mux= line with "
+        "its start bit or length replaced (same block). SYM Var=/Mux= statements are also cut inside a quoted text (unit with a blank, long "
+        "name, quoted name) wherever that text stands, also behind the length field: one load error, nothing written. "
         "Non-trivial = every distinct case.")
 EXHAUSTIVE = {"quick": False, "thorough": False}
 PARTIAL = ["theorems: a bad line is a no-op of the abstract reader (Props/C20) and of the model of the whole reader where it is skipped, "
            "counted only where the handler raises (Props/C05f); the whole reader (handlers, multi-line comment state, lookups) is a model "
-           "tied by this correspondence check (op 'whole'), the post-processing by observation only", "the SYM reader is tied by correspondence only (no Lean model of its line parser)"]
+           "tied by this correspondence check (op 'whole'), the post-processing by observation only", "the SYM reader is tied by correspondence only (no Lean model of its line parser)",
+           "files with a VAL_TABLE_ statement whose key is no number are judged by the op 'bad' alone (the model of the whole reader keeps the keys of a "
+           "value table as texts, the reader converts them inside its per-line handler): no op 'whole' for them"]
 ASSUMPTIONS = ["a line that opens a quoted comment without closing it starts a multi-line comment by the format's rules and is not a "
                "'truncated statement'; '[name' in SYM starts a new section", "malformed lines are inserted as whole lines",
                "a statement cut off from the file's own text counts as truncated when the text alone says so: no ';' left (statements that end "
@@ -189,6 +198,168 @@ def truncations_sym(line):
     return None
 
 
+NUMBER = re.compile(r'(?<![\w.])-?\d+(?:\.\d+)?(?:[eE][-+]?\d+)?(?![\w.])')
+WORDS = ("x", "abc", "one", "n/a", "0x", "1O")
+
+
+def numeric_fields(st):
+    """the (start, end) of every number of the statement st that stands outside of quoted texts (digits inside a name do not count)"""
+    masked, quoted = [], False
+    for ch in st:
+        if ch == '"':
+            quoted = not quoted
+        masked.append('"' if quoted or ch == '"' else ch)
+    return [(g.start(), g.end()) for g in NUMBER.finditer("".join(masked))]
+
+
+def twin_kind_dbc(st, field, nfields):
+    """what the DBC reader does with the copy of the complete statement st (of the same file) in which number `field` of its `nfields`
+    numbers outside quoted texts was replaced by a word, by the reader's patterns:
+      'wrong'   the pattern of the statement asks for digits there: no match, nothing happens (printed or not: dispatcher model)
+      'raises'  the pattern takes any text, the conversion raises inside the per-line handler: printed, nothing written
+      'matchok' the pattern takes any text and the statement has a handler of its own around the conversion (VAL_ keys), or the field is
+                not read at all (the type number of SIG_VALTYPE_, the second definition of an attribute): nothing printed; the copy
+                stands behind the original, so whatever it still does has been done by the original already
+    None: no twin of this field (BA_ has a stream of its own: the malformed twin of a good attribute line)"""
+    kw = st.split(" ")[0]
+    if kw in ("BO_", "CM_"):
+        return "raises"
+    if kw in ("SG_", "BO_TX_BU_"):
+        return "wrong"
+    if kw == "VAL_":
+        return "wrong" if field == 0 and re.match(r"VAL_ +\d+ ", st) else "matchok"
+    if kw == "VAL_TABLE_":
+        return "raises"
+    if kw == "SIG_VALTYPE_":
+        return "raises" if field == 0 else "matchok"
+    if kw == "SIG_GROUP_":
+        return "raises" if field == 0 else None
+    if kw == "SG_MUL_VAL_":
+        return "wrong" if field == 0 else "raises"
+    if kw == "BA_DEF_":
+        return "matchok"
+    return None
+
+
+def twins_dbc(rng, lines, pos, taken):
+    """'wrong field type' lines derived from the file itself: the copy of a complete statement of the text (every kind equally often) in
+    which one number was replaced by a word, inserted behind the original (the next allowed position or any later one).  The copy
+    carries the name / the identifier of an object that a well-formed statement has defined: a reader that starts to write before it
+    has converted every field, or that shares the object with what it read before, damages good content only here."""
+    found = []
+    where = {}
+    for n, raw in enumerate(lines):
+        where.setdefault(raw.strip(), n)
+    stmts = [x for x in statements_dbc(lines) if numeric_fields(x) and not x.startswith("BA_ ")]
+    for _k in range(rng.randint(1, 3)):
+        if not stmts:
+            break
+        kw = rng.choice(sorted({x.split(" ")[0] for x in stmts}))
+        st = rng.choice([x for x in stmts if x.split(" ")[0] == kw])
+        fields = numeric_fields(st)
+        fi = rng.randrange(len(fields))
+        kind = twin_kind_dbc(st, fi, len(fields))
+        later = [q for q in pos if q > where.get(st, len(lines))]
+        if kind is None or not later:
+            continue
+        a, b = fields[fi]
+        bad = st[:a] + rng.choice(WORDS) + st[b:]
+        if bad.strip() in taken or any(bad.strip() == b2.strip() for _, b2, _ in found):
+            continue
+        found.append([later[0] if rng.random() < 0.5 else rng.choice(later), bad, kind])
+    return found
+
+
+def statement_part_sym(line):
+    """length of the statement of a SYM line: up to the // that starts its comment (outside quoted texts)"""
+    quoted = False
+    for k, ch in enumerate(line):
+        if ch == '"':
+            quoted = not quoted
+        elif ch == "/" and not quoted and line[k:k + 2] == "//":
+            return k
+    return len(line)
+
+
+def open_text_cuts_sym(line):
+    """the lengths k for which the prefix line[:k] of a Var=/Mux= line ends inside a quoted text of the statement (a unit with a blank,
+    a long name, a quoted signal name): the text is never closed, by the format's rules the statement is truncated wherever the cut
+    falls - also behind the length field - and has to be recorded as one load error"""
+    if not line.startswith(("Var=", "Mux=")):
+        return []
+    end = statement_part_sym(line)
+    return [k for k in range(5, end + 1) if line[:k].count('"') % 2 == 1]
+
+
+def cut_from_file_sym(rng, lines):
+    """(text, kind) of one truncated statement made from a line of the SYM text, None when there is none: cut before its first number is
+    complete (truncations_sym), or - every second time when the file has a statement with a quoted text - inside that text"""
+    opened = [(l, open_text_cuts_sym(l)) for l in lines if open_text_cuts_sym(l)]
+    stmts = [(l, truncations_sym(l)) for l in lines if truncations_sym(l)]
+    if opened and (not stmts or rng.random() < 0.5):
+        st, ks = rng.choice(opened)
+        return st[:rng.choice(ks)], "bad"
+    if not stmts:
+        return None
+    st, (lo, hi, least) = rng.choice(stmts)
+    k = rng.randint(lo, hi)
+    return st[:k], "bad" if k >= least else "unknown"
+
+
+def enum_statements_sym(lines):
+    """(first line, number of lines, text in one line) of every complete enum statement of the {ENUMS} section"""
+    out = []
+    in_enums = False
+    n = 0
+    while n < len(lines):
+        l = lines[n].strip()
+        if l.startswith("{"):
+            in_enums = l.startswith("{ENUMS}")
+        if in_enums and l.startswith("enum "):
+            k, text = n, l
+            while not text[5:].strip().endswith(")") and k + 1 < len(lines) and "//" not in text:
+                k += 1
+                text += lines[k].strip()
+            if text[5:].strip().endswith(")") and "//" not in text:
+                out.append((n, k - n + 1, text))
+            n = k
+        n += 1
+    return out
+
+
+def twins_sym(rng, lines):
+    """'wrong field type' statements derived from the SYM text itself, each [position, line, 'bad'] (one load error, nothing written):
+    - the copy of a complete enum statement with one of its keys replaced by a word, behind the original in the {ENUMS} section (in front
+      of one of the later enum statements or of the line that ends the section)
+    - the copy of a Var=/Mux= line with its start bit or its length replaced by a word, in the same block"""
+    found = []
+    enums = enum_statements_sym(lines)
+    if enums and rng.random() < 0.7:
+        idx = rng.randrange(len(enums))
+        n, cnt, text = enums[idx]
+        head = text.index("(")
+        keys = [g for g in re.finditer(r'(?:(?<=\()|(?<=, )|(?<=,))\s*(-?\d+)=(?=")', text) if text[:g.start()].count('"') % 2 == 0 and g.start() >= head]
+        if keys:
+            g = rng.choice(keys)
+            bad = text[:g.start(1)] + rng.choice(WORDS) + text[g.end(1):]
+            places = [e[0] for e in enums[idx + 1:]] + [enums[-1][0] + enums[-1][1]]
+            found.append([places[0] if rng.random() < 0.5 else rng.choice(places), bad, "bad"])
+    blocks = allowed_positions_sym(lines)
+    vars_ = [(p, lines[p]) for p in blocks if lines[p].startswith(("Var=", "Mux=")) and truncations_sym(lines[p])]
+    if vars_ and rng.random() < 0.7:
+        p, st = rng.choice(vars_)
+        g = re.match(r"(?:Var=\S+ +\S+|Mux=\S+) +(\d+),(\d+)", st)
+        if g:
+            # (the selector value of a Mux= line is kept out for now: `Mux=mode_a 0,8 abc` in front of the Var= lines of a block is
+            # recorded as load error but leaves multiplexor = 'abc' behind, the Var= lines that follow fail too and their signals
+            # are lost - a defect of the unchanged reader, reported in round 9)
+            which = rng.choice([1, 2])
+            bad = st[:g.start(which)] + rng.choice(WORDS[:3]) + st[g.end(which):]
+            later = [q for q in blocks if q > p and not any(lines[r].strip() == "" for r in range(p, q))]
+            found.append([rng.choice(later) if later and rng.random() < 0.5 else p + 1 if p + 1 in blocks else p, bad, "bad"])
+    return found
+
+
 def allowed_positions_sym(lines):
     """inside a message block: after its ID= line and before the blank line that ends the block"""
     ok = []
@@ -271,12 +442,10 @@ def gen_many(rng, fmt, lines, pos, m, ms):
                                                      "file": TRUNC_DBC, "any": UNKNOWN_DBC + TRUNC_DBC + WRONG_DBC}[source])))
     else:
         source = rng.choice(("unknown", "bad", "any", "file"))
-        stmts = [(l, truncations_sym(l)) for l in lines if truncations_sym(l)] if source == "file" else []
         for _ in range(k):
-            if stmts:
-                st, (lo, hi, least) = rng.choice(stmts)
-                c = rng.randint(lo, hi)
-                pool.append((st[:c], "bad" if c >= least else "unknown"))
+            cut = cut_from_file_sym(rng, lines) if source == "file" else None
+            if cut:
+                pool.append(cut)
             else:
                 b = rng.choice({"unknown": UNKNOWN_SYM, "bad": BAD_SYM, "file": BAD_SYM, "any": UNKNOWN_SYM + BAD_SYM}[source])
                 pool.append((b, "unknown" if b in UNKNOWN_SYM else "bad"))
@@ -303,6 +472,9 @@ def gen_many(rng, fmt, lines, pos, m, ms):
     return (shape, bads) if len(bads) >= 7 else None
 
 
+TABLE_TEXTS = ("off", "on", "neutral", "first gear", "not available", "error; see manual", "n/a", "50 %")
+
+
 def gen_text(rng, fmt):
     s = samples()[fmt]
     if s and rng.random() < 0.3:
@@ -318,6 +490,11 @@ def gen_text(rng, fmt):
         if rng.random() < 0.3:
             f["comment"] = "first line\nsecond line of the comment"
     db = c14.build(d)
+    if fmt == "dbc" and rng.random() < 0.6:
+        # global value tables (VAL_TABLE_ statements): one to three, one of them sometimes without entries
+        for t in range(rng.randint(1, 3)):
+            keys = rng.sample(range(0, 16), rng.randint(0 if t else 1, 4))
+            db.add_value_table("Tab%d" % t, {k2: rng.choice(TABLE_TEXTS) for k2 in keys})
     text = M.export_bytes(db, fmt).decode("iso-8859-1")
     if fmt == "dbc" and rng.random() < 0.5:
         # the order of the SG_ lines of a frame is free: a multiplexed signal may stand before its multiplexer
@@ -439,18 +616,37 @@ def _gen_base(rng, tier, shard, nshards):
                             continue
                         bads.append([rng.choice(busy) if busy and rng.random() < 0.5 else rng.choice(pos), b, "trunc"])
                 else:
-                    stmts = [(l, truncations_sym(l)) for l in lines if truncations_sym(l)]
                     for _k in range(rng.randint(1, 3)):
-                        if not stmts:
+                        cut = cut_from_file_sym(rng, lines)
+                        if not cut:
                             break
-                        st, (lo, hi, least) = rng.choice(stmts)
-                        k = rng.randint(lo, hi)
-                        b = st[:k]
+                        b, kind = cut
                         if any(b2.strip() == b.strip() for _, b2, _ in bads):
                             continue
-                        bads.append([rng.choice(pos), b, "bad" if k >= least else "unknown"])
+                        bads.append([rng.choice(pos), b, kind])
+            nowhole = False
+            if rng.random() < 0.5:
+                # wrong field types derived from the file's own statements: the copy of a complete statement with one number replaced
+                # by a word, behind the original (it names an object that a well-formed statement has defined)
+                if fmt == "dbc":
+                    twins = twins_dbc(rng, lines, pos, {b2.strip() for _, b2, _ in bads})
+                    # (Model/DbcFile.lean converts the keys of a VAL_TABLE_ statement like `int()` since round 9: the whole-reader model
+                    # is compared on these files too)
+                    nowhole = False
+                else:
+                    twins = [t for t in twins_sym(rng, lines) if not any(t[1].strip() == b2.strip() for _, b2, _ in bads)]
+                for t in twins:
+                    t.append("twin")
+                bads.extend(twins)
             if bads:
-                yield {"op": "bad", "c": {"fmt": fmt, "text": text, "ins": bads, "bad": [b for _, b, _ in bads]}}
+                case = {"op": "bad", "c": {"fmt": fmt, "text": text, "ins": [x[:3] for x in bads], "bad": [x[1] for x in bads]}}
+                if any(len(x) > 3 for x in bads):
+                    case["c"]["twins"] = [n for n, x in enumerate(bads) if len(x) > 3]
+                if nowhole:
+                    # (the model of the whole reader keeps the keys of a VAL_TABLE_ statement as texts, the reader converts them and
+                    # skips the statement when one is no number: these files are judged by the op 'bad' alone)
+                    case["c"]["nowhole"] = True
+                yield case
             if rng.random() < 0.35:
                 # all multisets of insertions: also the large ones (runs of malformed lines, a malformed line in front of every statement)
                 many = gen_many(rng, fmt, lines, pos, m, ms)
@@ -520,7 +716,7 @@ def gen(rng, tier, shard, nshards):
     for case in _gen_base(rng, tier, shard, nshards):
         yield case
         c = case["c"]
-        if c["fmt"] != "dbc" or c.get("enc"):
+        if c["fmt"] != "dbc" or c.get("enc") or c.get("nowhole"):
             continue
         n += 1
         if case["op"] == "bad" and (tier == "quick" or n % 4 == 0) or case["op"] == "cut" and n % 3 == 0:
@@ -653,8 +849,13 @@ def features(case, impl):
         if case["c"].get("many"):
             n = len(case["c"]["ins"])
             yield "many=%s/%s/%s" % (case["c"]["many"], case["c"]["fmt"], "7..24" if n < 25 else "25..49" if n < 50 else "50..")
+        for n in case["c"].get("twins", []):
+            b = case["c"]["ins"][n][1]
+            yield "wrong-field-type-twin/%s/%s" % (case["c"]["fmt"], (b.split("=")[0] if case["c"]["fmt"] == "sym" and not b.startswith("enum") else b.split(" ")[0]))
         for _, b, kind in case["c"]["ins"]:
             yield "fault=" + kind
+            if case["c"]["fmt"] == "sym" and b.startswith(("Var=", "Mux=")) and b.count('"') % 2 == 1 and "," in b.split('"')[0]:
+                yield "sym-statement-cut-in-quoted-text-behind-length-field"
             if b.count('"') % 2 == 1:
                 yield "bad-line-with-open-text/" + case["c"]["fmt"]
             if case["c"]["fmt"] == "dbc" and kind == "trunc" and b not in TRUNC_DBC:
